@@ -272,6 +272,8 @@ class Xray(object):
             filename = os.path.join(self._nff_path, symbol.lower()+".nff")
             if symbol != 'n' and os.path.exists(filename):
                 xsf = numpy.loadtxt(filename, skiprows=1).T
+                # numpy.interp needs increasing energies (si.nff lists 1839. before 1838.90)
+                xsf = xsf[:, numpy.argsort(xsf[0], kind='stable')]
                 xsf[1, xsf[1] == -9999.] = numpy.nan
                 xsf[0] *= 0.001  # Use keV in table rather than eV
                 self._table = xsf
